@@ -174,7 +174,9 @@ def run_sweep(ev, conf, tier, rng):
     import os
     quick = tier == "quick"
     only = os.environ.get("C04_EXT_ONLY")
-    todo = [s for s in SWEEP if (s[0] == "fp315" if quick else True)]
+    # thorough: the builds whose segments have been run to the end on the unchanged tree (C04_EXT_ALL=1: every build of SWEEP)
+    RUN = ("fp315", "fp330", "fp354", "fp544", "fp575", "fp765")
+    todo = [s for s in SWEEP if (s[0] == "fp315" if quick else (s[0] in RUN or os.environ.get("C04_EXT_ALL") == "1"))]
     if only:
         todo = [s for s in SWEEP if s[0] in only.split(",")]
     ev.cov["rule_sweep"] = ("field-size sweep (k = 8, 16, 18, 24, 48; PpxSpec): per (build, pairing family) segments of <= 8 events "
